@@ -134,7 +134,8 @@ func runC08(c *Ctx) {
 			case writeM[name]:
 				guard = []string{
 					"true(call:" + adapterT + ".isOutput(param#0,call:(pkg/resource.*).Type(" + tgt + ")))",
-					"true(call:" + adapterT + ".isOutput(param#0,call:(pkg/resource.Metadata).Type(*call:(pkg/resource.Resource).Metadata(" + tgt + "))))",
+					// Type() of the target's metadata, called on the concrete *Metadata or through the Pointer/Reference interface
+					"true(call:" + adapterT + ".isOutput(param#0,call:(pkg/resource.*).Type(*call:(pkg/resource.Resource).Metadata(" + tgt + "))))",
 				}
 			case finM[name]:
 				guard = []string{"nil(call:" + adapterT + ".checkFinalizerAccess(param#0,call:(pkg/resource.*).Namespace(" + tgt + "),call:(pkg/resource.*).Type(" + tgt + "),call:(pkg/resource.Pointer).ID(" + tgt + ")))"}
@@ -172,9 +173,9 @@ func runC08(c *Ctx) {
 	f = p.Method(pkgCtrlState, "StateAdapter", "checkReadAccess")
 	isOut := "true(call:" + adapterT + ".isOutput(param#0,param#2))"
 	c.mustCutEach("R08.2", "return nil", f, ReturnsNilConst(0), 1, map[string]EdgePred{
-		"output or namespace equal": FactEdge(isOut, "eq(*.Namespace,param#1)"),
-		"output or type equal":      FactEdge(isOut, "eq(*.Type,param#2)"),
-		"output or id rule":         FactEdge(isOut, "false(call:(github.com/siderolabs/gen/optional.Optional[T]).IsPresent(*.ID))", "eq(*.ID,param#3)"),
+		"output or namespace equal":                        FactEdge(isOut, "eq(*.Namespace,param#1)"),
+		"output or type equal":                             FactEdge(isOut, "eq(*.Type,param#2)"),
+		"output or id rule":                                FactEdge(isOut, "false(call:(github.com/siderolabs/gen/optional.Optional[T]).IsPresent(*.ID))", "eq(*.ID,param#3)"),
 		"output or (kind-wide input or request has an id)": FactEdge(isOut, "false(call:(github.com/siderolabs/gen/optional.Optional[T]).IsPresent(*.ID))", "true(call:(github.com/siderolabs/gen/optional.Optional[T]).IsPresent(param#3))"),
 	})
 
@@ -185,10 +186,10 @@ func runC08(c *Ctx) {
 	}
 
 	c.mustCutEach("R08.2", "return nil", f, ReturnsNilConst(0), 1, map[string]EdgePred{
-		"namespace equal": FactEdge("eq(*.Namespace,param#1)"),
-		"type equal":      FactEdge("eq(*.Type,param#2)"),
+		"namespace equal":                   FactEdge("eq(*.Namespace,param#1)"),
+		"type equal":                        FactEdge("eq(*.Type,param#2)"),
 		"kind in {Strong,QPrimary,QMapped}": FactEdge(kinds...),
-		"id rule": FactEdge("false(call:(github.com/siderolabs/gen/optional.Optional[T]).IsPresent(*.ID))", "eq(call:(github.com/siderolabs/gen/optional.Optional[T]).ValueOrZero(*.ID),param#3)", "eq(*.ID,*param#3*"),
+		"id rule":                           FactEdge("false(call:(github.com/siderolabs/gen/optional.Optional[T]).IsPresent(*.ID))", "eq(call:(github.com/siderolabs/gen/optional.Optional[T]).ValueOrZero(*.ID),param#3)", "eq(*.ID,*param#3*"),
 	})
 
 	// ---------- R08.3 exposure
